@@ -373,6 +373,41 @@ def check_lexicase_with_missing_values_terminates(h: Harness):
         h.fail("GeneticProgramming.search", "raises", f"lexicase search on a problem with NaN objectives failed: {err.strip()[-300:]}", {"configs": configs})
 
 
+def check_initial_population_and_tiny_budgets(h: Harness):
+    """a budget that the INITIAL population already exhausts (n = 1 .. population size), with every shipped population initialiser and odd
+    population sizes: the search stops at its first check, after exactly population_size evaluations"""
+    from props import steps_common as sc
+    from geneticengine.algorithms.gp.operators.initializers import HalfAndHalfInitializer, StandardInitializer
+    from geneticengine.grammar.grammar import extract_grammar
+    from geneticengine.representations.tree.initializations import MaxDepthDecider
+    from geneticengine.representations.tree.operators import FullInitializer, GrowInitializer, PositionIndependentGrowInitializer
+    from geneticengine.representations.tree.treebased import TreeBasedRepresentation
+    g = extract_grammar([sc.Leaf, sc.Node], sc.Root)
+    rng = h.rng
+    inits = [("HalfAndHalf", lambda: HalfAndHalfInitializer(GrowInitializer(), FullInitializer(4))), ("Standard", StandardInitializer), ("Grow", GrowInitializer),
+             ("Full", lambda: FullInitializer(4)), ("PositionIndependentGrow", lambda: PositionIndependentGrowInitializer(4))]
+    for iname, mk in inits:
+        for pop in (1, 2, 3, 7, 11, 12, 13, 21):
+            n = rng.choice([1, 1, pop, max(1, pop - 1)])
+            r = NativeRandomSource(rng.randrange(10**6))
+            problem = SingleObjectiveProblem(lambda p: float(len(repr(p)) % 7), minimize=False)
+            ev = SequentialEvaluator()
+            tracker = SingleObjectiveProgressTracker(problem, ev)
+            try:
+                GeneticProgramming(problem, EvaluationBudget(n), TreeBasedRepresentation(g, MaxDepthDecider(r, g, 4)), r, tracker, population_size=pop,
+                                   population_initializer=mk()).search()
+            except Exception as e:  # noqa: BLE001
+                h.count(f"tiny-budget:{iname}:raised:{type(e).__name__}")
+                continue
+            total = ev.number_of_evaluations()
+            h.count("tiny-budgets")
+            h.seen(f"tiny-budget:{iname}:{pop}:{n}", nontrivial=pop > 1)
+            if not (n <= total < n + pop):
+                h.fail("GeneticProgramming.search", "stops-late-or-early",
+                       f"GeneticProgramming(population_size={pop}, population_initializer={iname}Initializer, EvaluationBudget({n})): {total} evaluations; the initial "
+                       f"population alone exhausts the budget, the total must lie in [{n}, {n + pop})", {"init": iname, "pop": pop, "n": n})
+
+
 def check_parallel_evaluator(h: Harness):
     """the evaluation budget counts what the evaluator counted: with the PARALLEL evaluator and an
     algorithm that submits several new individuals per call (hill climbing), the search must still
@@ -675,6 +710,7 @@ def check_simplegp(h: Harness):
 def run(h: Harness):
     check_step_object_reused(h)
     check_lexicase_with_missing_values_terminates(h)
+    check_initial_population_and_tiny_budgets(h)
     check_evaluation_budgets(h)
     check_target_and_anyof(h)
     check_parallel_evaluator(h)
